@@ -105,7 +105,7 @@ Proof.
     split; [exact Hg2|]. split; [right; reflexivity|]. split; [exact (bm_update _ _ _ _ _ _ _ fs Hu)|]. split; [left; reflexivity|discriminate]. }
   destruct st as [m|]; unfold step_state, exec_step.
   - destruct (exec_msg s m) as [s' rw|o] eqn:E; simpl; [|exact (Hsame p eq_refl s Hg)].
-    destruct m as [who lpt start ed rules|who pid' d amt|who pid' d amt|who pid'|who pid' add rpb|who pid']; simpl in E.
+    destruct m as [who lpt start ed rules|who pid' d amt|who pid' d amt|who pid'|who pid' add rpb|who pid'|who cf tr]; simpl in E.
     + destruct (create_Done _ _ _ _ _ _ _ _ E) as (b1 & b2 & iv & _ & _ & _ & _ & _ & _ & _ & _ & ->).
       apply (Hsame p eq_refl). simpl. rewrite get_set_other; [exact Hg|].
       pose proof (i_ids _ I) as Hids. rewrite Forall_forall in Hids. pose proof (Hids pid (get_Some_in_keys _ _ _ Hg)). lia.
@@ -148,6 +148,7 @@ Proof.
         -- exact (rule_sum_rem_zero _ d Hz).
       * destruct (refund_cases _ _ _ _ _ Hr) as [(p1 & b1 & _ & _ & ->)|(p1 & b1 & b' & _ & -> & _)];
           apply (Hsame p eq_refl); simpl; rewrite get_set_other by congruence; exact Hg.
+    + destruct (update_params_Done _ _ _ _ _ _ E) as (_ & _ & _ & _ & ->). apply (Hsame p eq_refl). exact Hg.
   - simpl. fold (end_block s). unfold end_block.
     destruct (in_dec Z.eq_dec pid (due s)) as [Hin|Hni].
     + destruct (in_split _ _ Hin) as (l1 & l2 & Hl). pose proof (NoDup_due _ (i_qnd _ I)) as Hnd. rewrite Hl in Hnd.
